@@ -338,6 +338,10 @@ func WithRootPublicKeys(keysByID map[uint32]ed25519.PublicKey, defaultKey *ed255
 }
 
 func (b *Biscuit) authorizerFor(root ed25519.PublicKey, opts ...AuthorizerOption) (Authorizer, error) {
+	// ed25519.Verify panics on a key of another size
+	if len(root) != ed25519.PublicKeySize {
+		return nil, ErrInvalidKeySize
+	}
 	currentKey := root
 
 	// for now we only support Ed25519
